@@ -226,6 +226,47 @@ class Interp(container.ContainerInterp):
             for name in live_writable[:2]:
                 blk = specs.build(container_min(name))
                 self.refused(f"comment-{kind}", "replace_block", lambda: t.replace_block(blk, text))
+        # 4b. the object of a refused replace (bad comment / bad date) is repaired, edited and then stored by remove + add:
+        #     the file must hold what the object encodes to NOW ("as if the failed call had never been made")
+        if self.hole is None and live_writable:
+            from datetime import datetime
+
+            name = live_writable[seed % len(live_writable)]
+            i = self.find(reftdf.TYPE_CODE[name])
+            old = self.model[i]
+            blk = specs.build(labelled_spec(name, 1) if name in LABELLED or name in ("platData", "data2D") else container_min(name))
+            blk.creation_date, blk.last_modification_date = container.dt_of(11), container.dt_of(12)
+            variant = seed % 3
+            if variant == 0:
+                self.refused("comment-too-long-by-one", "replace_block", lambda: t.replace_block(blk, "c" * 256))
+            elif variant == 1:
+                blk.creation_date = datetime(2040, 1, 1)
+                self.refused("date-out-of-range-creation", "replace_block", lambda: t.replace_block(blk))
+                blk.creation_date = container.dt_of(11)
+            else:
+                self.refused("comment-not-cp1252", "replace_block", lambda: t.replace_block(blk, "caf\u0107"))
+            # edit the same object, then store it with two valid calls
+            if hasattr(blk, "frequency"):
+                blk.frequency = 4321
+            elif name == "events":
+                blk.start_time = 2.5
+            before_len = len(self.read_file())
+            ok1, _ = self.ctx.must(lambda: t.remove_block(BlockType(reftdf.TYPE_CODE[name])), "reuse-refused-object/remove", "valid remove after a refused replace")
+            ok2, _ = self.ctx.must(lambda: t.add_block(blk, "stored later"), "reuse-refused-object/add", "valid add of the (edited) object of an earlier refused replace")
+            if ok1 and ok2:
+                now = specs.lib_write(blk)
+                del self.model[i]
+                self.model.append({"type": reftdf.TYPE_CODE[name], "format": blk.format.value, "payload": now, "comment": "stored later", "cdate": 11, "mdate": 12,
+                                   "spec": specs.extract(blk)})
+                data = self.read_file()
+                parsed = reftdf.parse_container(data)
+                e = next((e for _, e in reftdf.live(parsed) if e["type"] == reftdf.TYPE_CODE[name]), None)
+                self.ctx.evaluations += 1
+                self.ctx.hist["cell:reuse-refused-object|remove+add|" + self.state_class()] += 1
+                if e is None or data[e["offset"]:e["offset"] + e["size"]] != now:
+                    self.ctx.fail("reuse-refused-object/stored-bytes-stale", f"{name}: after a refused replace_block the same block object was edited and stored by remove_block + "
+                                                                             f"add_block, but the file does not hold its current encoding "
+                                                                             f"({'no entry' if e is None else str(e['size']) + ' bytes stored, ' + str(len(now)) + ' expected'})")
         # 5. unsupported format
         for name in ("data3D", "emg", "force3D", "platData", "data2D"):
             present = reftdf.TYPE_CODE[name] in live_codes
